@@ -297,16 +297,42 @@ func cmdVerify(args []string) int {
 			if o.Cover && t > 6 {
 				t = 6 // vacuity checks are advisory: "unknown" is accepted
 			}
-			if matchKnown(knownList, *prop, o.Name) != nil || *expectFail != "" {
-				// a recorded finding: one race, no second (longer) attempt
-				o.Result = solveOnce(q, tmp, o.Name, t, true)
-			} else {
-				o.Result = solve(q, tmp, o.Name, t)
-			}
+			// one race per obligation; the second, longer attempt comes below, and only when few are left
+			o.Result = solveOnce(q, tmp, o.Name, t, true)
 			o.Result.Ms += first.Ms
 		}(o)
 	}
 	wg.Wait()
+	// a timeout on a loaded machine must not become an alarm: obligations still undecided get one more race
+	// with twice the budget, unless there are many of them (then the tree is broken, not the machine
+	// slow) or they are recorded findings / selftest expectations
+	var again []*Obl
+	for _, o := range res.obls {
+		if !want[o] || o.Cover || o.Result.Backend == "trivial" || o.Result.Status == "unsat" || o.Result.Status == "sat" {
+			continue
+		}
+		if o.Result.Status == "" || *expectFail != "" || matchKnown(knownList, *prop, o.Name) != nil {
+			continue
+		}
+		again = append(again, o)
+	}
+	if len(again) <= 6 {
+		for _, o := range again {
+			wg.Add(1)
+			go func(o *Obl) {
+				defer wg.Done()
+				sem <- struct{}{}
+				defer func() { <-sem }()
+				first := o.Result
+				r2 := solveOnce(vcOf[o].query(o), tmp, o.Name, 2*to, false)
+				if r2.Status == "unsat" || r2.Status == "sat" {
+					r2.Ms += first.Ms
+					o.Result = r2
+				}
+			}(o)
+		}
+		wg.Wait()
+	}
 	return report(eng, *prop, *tier, *verif, cfg, res, vcOf, conOf, start, loadT, genT, *expectFail, *verbose, to)
 }
 
